@@ -23,11 +23,16 @@ import Mpir.Model.Kernels
 namespace Mpir.Mem
 open Mpir
 
-/-- memory: address → limb -/
-abbrev Memory := Nat → Nat
+/-- memory: address → limb.  A one-field structure rather than the bare function type so that a loop
+    returning a `Memory` is compiled as a loop that returns a value (with the bare function type the
+    compiler eta-expands `loop … : Nat → Nat` and re-runs the loop on every later load). -/
+structure Memory where
+  get : Nat → Nat
+
+instance : CoeFun Memory (fun _ => Nat → Nat) := ⟨Memory.get⟩
 
 /-- `*p = v` -/
-def write (m : Memory) (p v : Nat) : Memory := fun a => if a = p then v else m a
+def write (m : Memory) (p v : Nat) : Memory := ⟨fun a => if a = p then v else m a⟩
 
 /-- the `n` words at `p, p+1, …` (least significant first, as the list-level model wants them) -/
 def read (m : Memory) (p : Nat) : Nat → List Nat
@@ -40,8 +45,8 @@ def writeList (m : Memory) (p : Nat) : List Nat → Memory
   | x :: xs => writeList (write m p x) (p + 1) xs
 
 /-- a memory whose first words are the given buffer (0 elsewhere) -/
-def ofList (l : List Nat) : Memory := fun a => l.getD a 0
-def ofArray (l : Array Nat) : Memory := fun a => l.getD a 0
+def ofList (l : List Nat) : Memory := ⟨fun a => l.getD a 0⟩
+def ofArray (l : Array Nat) : Memory := ⟨fun a => l.getD a 0⟩
 
 /-! ### The overlap predicates of gmp-impl.h (lines 2095–2118), verbatim -/
 
